@@ -42,7 +42,7 @@ _C07_FULL["xdsl.context"] = {"shims": (), "methods": ("get",)}
 
 _C05_FULL = dict(_IR_TEXT_FULL)
 _C05_FULL.update({m: dict(_PARSE_OPTS) for m in ("xdsl.irdl.declarative_assembly_format", "xdsl.dialects.arith", "xdsl.dialects.cf", "xdsl.dialects.func", "xdsl.dialects.memref", "xdsl.dialects.scf",
-                                                  "xdsl.dialects.utils.format", "xdsl.dialects.utils.fast_math", "xdsl.utils.bitwise_casts", "xdsl.dialects.utils.dynamic_index_list", "xdsl.dialects.utils.bit_enum_attribute", "xdsl.dialects.llvm")})
+                                                  "xdsl.dialects.utils.format", "xdsl.dialects.utils.fast_math", "xdsl.utils.bitwise_casts", "xdsl.dialects.utils.dynamic_index_list", "xdsl.dialects.utils.bit_enum_attribute", "xdsl.dialects.llvm", "xdsl.dialects.vector", "xdsl.dialects.tensor", "xdsl.dialects.affine")})
 
 _C05_FULL["xdsl.traits"] = {"shims": (), "calls": ("set", "dict"), "methods": ("get",)}
 
